@@ -157,10 +157,10 @@ def primal_problem(q_a: np.ndarray, pperm: np.ndarray, num_reps: int) -> float:
     dim = dim.tolist()
 
     x_var = cvxpy.Variable((8**num_reps, 8**num_reps), hermitian=True)
-    if num_reps == 1:
-        objective = cvxpy.Maximize(cvxpy.trace(cvxpy.real(q_a.conj().T @ x_var)))
-    else:
-        objective = cvxpy.Maximize(cvxpy.trace(cvxpy.real(pperm @ q_a.conj().T @ pperm.conj().T @ x_var)))
+    # `sys` and `dim` above number the registers of `x_var` in the order of `q_a` (repetition by repetition), so the
+    # objective pairs `x_var` with `q_a` itself; `pperm` re-orders the registers for the dual problem only.
+    objective = cvxpy.Maximize(cvxpy.trace(cvxpy.real(q_a.conj().T @ x_var)))
+
     constraints = [
         partial_trace(x_var, sys, dim) == np.identity(2**num_reps),
         x_var >> 0,
